@@ -50,6 +50,9 @@ type VC struct {
 	imprecise map[string]bool
 	inputs   []string // names of input terms worth printing from a model
 	calledByContract map[*ssa.Function]bool
+	topFn       *ssa.Function
+	topContract *Contract
+	topVariant  Term
 }
 
 func newVC(eng *Engine, fn string) *VC {
